@@ -653,3 +653,30 @@ package martian
 //@   invariant p != nil && p.conns == old(p.conns) && forall c net.Conn :: (c in p.conns) == old(now(c) in p.conns)
 //@   invariant forall c net.Conn :: (c in p.conns) ==> c != nil
 //@   invariant forall c net.Conn {nConnClose(c)} :: nConnClose(c) >= old(nConnClose(c)) && (visited(c) ==> nConnClose(c) >= old(nConnClose(c)) + 1)
+
+// ---- the http.Handler variant (C04 L4.1): a refused request contacts no upstream ----
+
+// (the handler-side writers and the tunnel: they write to the ResponseWriter /
+// hijacked connection, they never contact an upstream)
+//@ func (proxyHandler).writeErrorResponse, (proxyHandler).writeResponse, (proxyHandler).tunnel, (proxyHandler).handleUpgradeResponse
+//@ trusted
+//@ modifies *
+//@ preserves Proxy.* http.Request.Method http.Request.Header http.Request.URL http.Request.Body
+
+// handleConnectRequest: when a request modifier refuses the CONNECT the error
+// response is written and nothing else happens - no CONNECT is attempted.
+//@ func (proxyHandler).handleConnectRequest
+//@ property C04
+//@ requires p.Proxy != nil && req != nil && req.Header != nil && req.URL != nil && rw != nil
+//@ modifies *, modReqFailed(), upstream(), nWrote(), wroteStatus(), sawClosing(), wrotePA(), wErr(), nMITM()
+//@ ensures modReqFailed() ==> upstream() == old(upstream())
+//@ ensures upstream() <= old(upstream()) + 1
+
+// handleRequest: the same for every other method - a refused request is
+// answered and never round-tripped.
+//@ func (proxyHandler).handleRequest
+//@ property C04
+//@ requires p.Proxy != nil && req != nil && req.Header != nil && req.URL != nil && rw != nil && p.Proxy.rt != nil
+//@ modifies *, nRead(), modReqFailed(), upstream(), nWrote(), wroteStatus(), sawClosing(), wrotePA(), wErr(), nMITM()
+//@ ensures modReqFailed() ==> upstream() == old(upstream())
+//@ ensures upstream() <= old(upstream()) + 1
